@@ -101,7 +101,12 @@ type CanonOpts struct {
 	EmptyListAbsent  bool
 	EmptyContAbsent  bool
 	IgnoreEntryOrder bool
+	// ZeroLeafAbsent: a leaf holding the zero value of its Go representation (0, false, "")
+	// compares like an absent leaf (Go structs cannot keep a scalar field unset).
+	ZeroLeafAbsent bool
 }
+
+func zeroCanon(c string) bool { return c == "0" || c == "false" || c == `""` }
 
 func (t *Tree) Canon(defs []meta.Definition, o CanonOpts) string {
 	var sb strings.Builder
@@ -166,7 +171,7 @@ func (t *Tree) canon(sb *strings.Builder, defs []meta.Definition, o CanonOpts) {
 			c.canon(sb, x.DataDefinitions(), o)
 		default:
 			lf, ok := t.Leaves[id]
-			if !ok {
+			if !ok || (o.ZeroLeafAbsent && zeroCanon(lf.Canon)) {
 				continue
 			}
 			sep()
